@@ -86,7 +86,7 @@ def parse_nat_list(val: str):
     body = val[1:-1].strip()
     if not body:
         return []
-    return [int(x) for x in body.split(";")]
+    return [int(x.split("%")[0]) for x in body.split(";")]      # numerals may be printed as `3%nat`
 
 
 def now() -> float:
